@@ -50,26 +50,27 @@ show("KF-C10-1", "id_{$request.body#}", output(NOT_SET))
 # KF-C10-2  RFC 6901: array index is "0" or digits without leading zero; "-1", "01", " 1" do not exist (unresolvable)
 for e in ("$response.body#/a/-1", "$response.body#/a/01", "$response.body#/a/ 1"):
     show("KF-C10-2", e, output({}))
-# KF-C10-3  an embedded whole-body expression is derivable ("{" expression "}") but is rejected
+# KF-C10-3/4  an embedded whole-body expression is derivable ("{" expression "}") but is rejected (4: the same inside a link)
 show("KF-C10-3", "{$response.body}", output({}, b'"abc"'))
 show("KF-C10-3", "id-{$request.body}", output("xyz"))
-# KF-C10-4  '#' in literal text (a constant, or the literal part around an embedded expression) starts a "pointer" that is dropped
-show("KF-C10-4", "color#red", output({}))
-show("KF-C10-4", "{$statusCode}#frag", output({}))
-show("KF-C10-5", "#{$statusCode}", output({}))
-# KF-C10-6..14  malformed strings that are not rejected (expected: RuntimeExpressionError)
-for fid, e in (("KF-C10-6 trailing_text", "$url.x"), ("KF-C10-7 pointer_on_non_body_source", "$statusCode#/a"),
-               ("KF-C10-8 pointer_missing_leading_slash", "$response.body#a"), ("KF-C10-9 pointer_bad_escape", "$response.body#/a~2"),
-               ("KF-C10-10 header_token_has_non_tchar", "$response.header.X/Id"), ("KF-C10-11 dollar_inside_constant", "foo$statusCode"),
-               ("KF-C10-12 non_expression_in_braces", "{foo}"), ("KF-C10-13 empty_braces", "{}"),
-               ("KF-C10-14 nested_brace", "{x{$statusCode}")):
+# KF-C10-5  '#' in literal text (a constant, or the literal part around an embedded expression) starts a "pointer" that is dropped
+show("KF-C10-5", "color#red", output({}))
+show("KF-C10-5", "{$statusCode}#frag", output({}))
+# KF-C10-6/7  ... or swallows the following '{' (7: the same inside a link)
+show("KF-C10-6", "#{$statusCode}", output({}))
+# KF-C10-8..15  malformed strings that are not rejected (expected: RuntimeExpressionError, or - where the string does not start
+# with `$` - the string itself as a constant)
+for fid, e in (("KF-C10-8 trailing_text", "$url.x"), ("KF-C10-9 pointer_on_non_body_source", "$statusCode#/a"),
+               ("KF-C10-10 pointer_missing_leading_slash", "$response.body#a"), ("KF-C10-11 pointer_bad_escape", "$response.body#/a~2"),
+               ("KF-C10-12 header_token_has_non_tchar", "$response.header.X/Id"), ("KF-C10-13 dollar_inside_constant", "foo$statusCode"),
+               ("KF-C10-14 non_expression_in_braces", "{foo}"), ("KF-C10-15 empty_braces", "{}")):
     show(fid, e, output({}))
-# KF-C10-15/16  a malformed expression in requestBody (also nested) does not make the link invalid; the same string in `parameters` does
+# KF-C10-16/17  a malformed expression in requestBody (also nested) does not make the link invalid; the same string in `parameters` does
 for _, result in get_all_links(op):
     kind = type(result).__name__
     name = result.ok().name if kind == "Ok" else result.err().name
-    print(f"KF-C10-15: link {name}: {kind}")
-# KF-C10-17  a link under "200" is unusable from a 200 response when a link under "2XX" is documented before it
+    print(f"KF-C10-16: link {name}: {kind}")
+# KF-C10-18  a link under "200" is unusable from a 200 response when a link under "2XX" is documented before it
 RAW2 = {
     "openapi": "3.0.3", "info": {"title": "t", "version": "1"},
     "paths": {
@@ -85,5 +86,10 @@ schema2 = schemathesis.openapi.from_dict(RAW2).configure(base_url="http://127.0.
 machine = schema2.as_state_machine()()
 src = schema2["/s"]["POST"]
 resp = Response(200, {}, b'{"id": 1}', requests.Request("POST", "http://127.0.0.1/s").prepare(), 0.1, False)
-print("KF-C10-17: 200 response stored in bundle:", machine._get_target_for_result(StepOutput(resp, src.Case(body={}))),
+print("KF-C10-18: 200 response stored in bundle:", machine._get_target_for_result(StepOutput(resp, src.Case(body={}))),
       "(the bundle 'POST /s -> 200' of link B stays empty)")
+
+# KF-C10-19  a link-supplied path parameter value is not escaped (generated values go through quote_all): '/' changes the route
+target = schema2["/t/{id}"]["GET"]
+case = target.Case(path_parameters={"id": "s t/u"})  # what into_step_input passes on as explicit `path_parameters`
+print("KF-C10-19: explicit path parameter 's t/u' ->", requests.Request(**case.as_transport_kwargs()).prepare().url)
